@@ -536,7 +536,7 @@ impl Tracer {
 
         let reason = loop {
             let tracee = self.tracee_ctl.tracee_ensure_mut(pid);
-            let status = tracee.wait_one()?;
+            let mut status = tracee.wait_one()?;
             let info = sys::ptrace::getsiginfo(pid).map_err(Ptrace)?;
 
             // check that debugee step into an expected trap
@@ -577,15 +577,16 @@ impl Tracer {
                 // if in syscall step to syscall end
                 sys::ptrace::syscall(tracee.pid, None).map_err(Ptrace)?;
                 let syscall_status = tracee.wait_one()?;
-                debug_assert!(matches!(
-                    syscall_status,
-                    WaitStatus::Stopped(_, Signal::SIGTRAP)
-                ));
+                if matches!(syscall_status, WaitStatus::Stopped(_, Signal::SIGTRAP)) {
+                    // then do step again
+                    tracee.step(None)?;
 
-                // then do step again
-                tracee.step(None)?;
+                    continue;
+                }
 
-                continue;
+                // tracee stopped before the syscall end (by a next signal, for example),
+                // a step here discards that signal, handle the new status as usual
+                status = syscall_status;
             }
 
             let is_interrupt = matches!(
